@@ -10,6 +10,10 @@
 (*    at |-> << every other scalar public attribute, as a value token >>   *)
 (*    ch |-> << child groups >>  group = << [key |-> name, n |-> node] >>  *)
 (*   ]                                                                     *)
+(* A bag entry whose key is NoName is stored under the UNNAMED key (None):  *)
+(* the keybinding without a name that pywbem builds for a KEYVALUE /       *)
+(* VALUE.REFERENCE without KEYBINDING in a server response (DSP0201); it   *)
+(* is a key like any other (matches only itself).                          *)
 (* A child group is either a BAG keyed by the folded key (keybindings,     *)
 (* properties, methods, parameters, qualifiers, scopes, dictionary items)  *)
 (* or an ordered SEQUENCE (the `value` slot, array elements, `path`).      *)
@@ -268,11 +272,29 @@ FailsCopy(e) ==
          \A i \in 1..Len(e.muts) :
             MustIndep(e.m, e.k, e.muts[i].steps) => e.muts[i].same = "T")
 
+(***************************************************************************)
+(* Histories.  The laws bind objects at ANY point of their life: `a` is an *)
+(* object after a history of hash() calls (as made by sets and dicts) and  *)
+(* in-place changes through its public interface - every mutator of its    *)
+(* dictionaries (setitem, delitem, pop, popitem, clear, update,            *)
+(* setdefault), attribute assignment on it or on a child object reachable  *)
+(* from it ("set" / "drop"), list changes; `b` is a freshly built object   *)
+(* with the attributes `a` has NOW.  The event is judged like any pair:    *)
+(* in particular a == b => hash(a) == hash(b) and set / dict membership.   *)
+(* The history itself needs no verdict beyond being one we understand.     *)
+(***************************************************************************)
+HistActs == {"hash", "setitem", "delitem", "pop", "popitem", "clear", "update",
+             "setdefault", "set", "drop"}
+FailsHist(e) ==
+  FailsPair(e)
+  \cup C("Unclassified", \A i \in 1..Len(e.acts) : e.acts[i].v \in HistActs)
+
 InitState == 0
 Apply(s, e) == s
 Fails(s, e) ==
   CASE e.ev = "pair" -> FailsPair(e)
     [] e.ev = "triple" -> FailsTriple(e)
     [] e.ev = "copy" -> FailsCopy(e)
+    [] e.ev = "hist" -> FailsHist(e)
     [] OTHER -> {"Unclassified"}
 =============================================================================
